@@ -139,11 +139,18 @@ def run_other(case):
     theta_c = xr.DataArray(np.arange(n, dtype=float) * 2 + 1, dims=["zc"], name="theta")
     try:
         if e == "transform_periodic":
-            grid = xgcm.Grid(ds, coords={"Z": {"center": "zc", "outer": "zo"}}, boundary="periodic",
-                             autoparse_metadata=False)
+            # every spelling of a periodic axis, every method, every setting of the other options
+            spell = rng.choice([dict(boundary="periodic"), dict(boundary={"Z": "periodic"}), dict(periodic=True),
+                                dict(periodic=["Z"]), dict()])
+            grid = xgcm.Grid(ds, coords={"Z": {"center": "zc", "outer": "zo"}}, autoparse_metadata=False, **spell)
             m = rng.choice(["linear", "log", "conservative"])
+            kw = {}
+            if rng.random() < 0.5:
+                kw["bypass_checks"] = rng.choice([True, False])
+            if rng.random() < 0.3:
+                kw["mask_edges"] = rng.choice([True, False])
             grid.transform(da, "Z", np.array([1.0, 2.0, 3.0]), target_data=theta_o if m == "conservative" else theta_c,
-                           method=m)
+                           method=m, **kw)
         elif e == "nonmonotonic_bins":
             grid = xgcm.Grid(ds, coords={"Z": {"center": "zc", "outer": "zo"}}, boundary="fill", autoparse_metadata=False)
             bins = rng.choice([[0.0, 3.0, 2.0, 5.0], [4.0, 1.0, 2.0], [0.0, 2.0, 2.0, 3.0]])
